@@ -45,7 +45,7 @@ func (c *c07Conn) Read(b []byte) (int, error) {
 		max = len(b)
 	}
 	k := vapi.U64("chunk", 8)
-	vapi.Assume(k >= 1 && k <= uint64(max))
+	vapi.Assume(vapi.And(k >= 1, k <= uint64(max)))
 	n := int(vapi.Concrete(k))
 	copy(b, c.stream[c.pos:c.pos+n])
 	c.pos += n
@@ -113,7 +113,7 @@ func c07Setup(maxS int) (stream []byte, max int) {
 	s := vapi.Len("S", maxS)
 	stream = vapi.Bytes("b", s)
 	m := vapi.U64("M", 8)
-	vapi.Assume(m >= 4 && m <= 16)
+	vapi.Assume(vapi.And(m >= 4, m <= 16))
 	max = int(m)
 	protocol.SetMaxPackageLength(max)
 	return
@@ -160,7 +160,7 @@ func VerifC07ClientLong() { c07Client(12); vapi.Reach("c07-client-long") }
 // exactly-max packet accepted, max+1 rejected (explicit boundary obligation)
 func VerifC07Boundary() {
 	m := vapi.U64("M", 8)
-	vapi.Assume(m >= 4 && m <= 16)
+	vapi.Assume(vapi.And(m >= 4, m <= 16))
 	protocol.SetMaxPackageLength(int(m))
 	l := uint32(vapi.U64("L", 32))
 	buf := make([]byte, 20)
